@@ -280,9 +280,11 @@ def bcsrDiagIndices [Zero α] (A : Bcsr α) : List Nat :=
   (List.range A.rows).map fun row =>
     diagIndexRow (A.rowPtr.getD row 0) (A.rowPtr.getD A.rows 0) row (rowCols (bcsrRow A row)) 0
 
-/-- `SparseMatrixBCSR::extract_diag`: `t[i] = m[i][i]` of the diagonal block, 0 when there is none -/
+/-- `SparseMatrixBCSR::extract_diag`: `t[i] = m[i][i]` of the diagonal block, 0 when there is none; non-square
+    matrices and (since the /repo fix 214562810) non-square blocks are reported -/
 def bcsrExtractDiag [Zero α] (A : Bcsr α) : Except Abort (List α) :=
   if A.rows != A.cols then .error .dims
+  else if A.bh != A.bw then .error .dims
   else .ok ((bcsrDiagIndices A).flatMap fun k => (List.range A.bh).map fun i =>
     if k != A.usedElements then A.val.getD (k * A.bh * A.bw + i * A.bw + i) 0 else 0)
 
